@@ -246,6 +246,47 @@ type c14Case struct {
 	Position string  `json:"position"`
 	Custom   string  `json:"custom_return_handler"`
 	V        c14Vals `json:"values"`
+	// Prev are the values returned by the same handler for the requests served before on the same instance.
+	Prev []c14Vals `json:"earlier_requests_on_the_same_instance,omitempty"`
+}
+
+// c14Reps picks one value of every outcome class of the table (wrote a body, failed, wrote nothing,
+// non-200 status) for the shape: the earlier request of the two-request histories.
+func c14Reps(shape string, vals []c14Vals, allErrKinds bool) []c14Vals {
+	seen := map[string]bool{}
+	var out []c14Vals
+	for _, v := range vals {
+		e := v.Err
+		if !allErrKinds && e != "nil" {
+			e = "non-nil"
+		}
+		cls := fmt.Sprintf("%v/%v/%v/%v/%v", v.S == "", len(v.B) == 0, e, v.Code == 200, v.PNil)
+		if len(v.S) > 1 || len(v.B) > 1 || seen[cls] {
+			continue
+		}
+		seen[cls] = true
+		out = append(out, v)
+	}
+	return out
+}
+
+// c14Shrink looks for the shortest history on a fresh instance that shows the mismatch seen at vals[vi]
+// after vals[:vi] were served on one instance: none, one earlier request, else the whole prefix.
+func c14Shrink(shape, pos, custom string, vals []c14Vals, vi int) c14Case {
+	c := c14Case{Shape: shape, Position: pos, Custom: custom, V: vals[vi]}
+	if bad, _, _ := c14Eval(c14Build(shape, pos, custom), shape, vals[vi]); bad != "" {
+		return c
+	}
+	for i := 0; i < vi; i++ {
+		w := c14Build(shape, pos, custom)
+		c14Eval(w, shape, vals[i])
+		if bad, _, _ := c14Eval(w, shape, vals[vi]); bad != "" {
+			c.Prev = []c14Vals{vals[i]}
+			return c
+		}
+	}
+	c.Prev = append([]c14Vals{}, vals[:vi]...)
+	return c
 }
 
 func c14Eval(w *c14World, shape string, v c14Vals) (bad, kind string, defined bool) {
@@ -371,7 +412,7 @@ func c14Run(r *core.Run) {
 	if r.Thorough() {
 		r.SetBudget(10 * time.Minute)
 	}
-	r.Rule = "engine E: every supported return shape x every value (empty, nil, all 256 single bytes, 1 KiB, every status 100..999, nil / errors.New / struct / pointer-receiver errors, nil pointers) x position {first of two handlers, last before the action, application middleware} x {default table, custom ReturnHandler at application scope, at request scope}; oracle = the statement's table, 'wrote nothing' observed as 'the next handler ran'; non-trivial = value that is nil/empty/zero, an error, or a non-200 status"
+	r.Rule = "engine E: every supported return shape x every value (empty, nil, all 256 single bytes, 1 KiB, every status 100..999, nil / errors.New / struct / pointer-receiver errors, nil pointers) x position {first of two handlers, last before the action, application middleware} x {default table, custom ReturnHandler at application scope, at request scope, mapped late}; all values served in sequence on one instance, plus every two-request history (one value of each outcome class, then every value) on a fresh instance; oracle = the statement's table, 'wrote nothing' observed as 'the next handler ran'; non-trivial = value that is nil/empty/zero, an error, or a non-200 status"
 	r.Assumptions = []string{"a non-nil pointer to an empty value is not covered by the statement and is asserted neither way (counted)", "status codes outside 100..999 (what net/http accepts) are outside the quantifier"}
 	positions := []string{"first-of-two", "last", "middleware"}
 	customs := []string{"", "app", "request", "request-late", "app-late"}
@@ -416,7 +457,11 @@ func c14Run(r *core.Run) {
 					if kind == "empty-result-stops-chain" && v.B == nil && !v.BNil && strings.Contains(j.shape, "[]byte") {
 						k += "/empty-non-nil-slice"
 					}
-					l.Violate(k, bad+fmt.Sprintf(" [shape %s, position %s, values %+v]", j.shape, j.pos, v), c14Case{j.shape, j.pos, j.custom, v})
+					cs := c14Shrink(j.shape, j.pos, j.custom, vals, vi)
+					if len(cs.Prev) > 0 {
+						k += "/after-earlier-requests"
+					}
+					l.Violate(k, bad+fmt.Sprintf(" [shape %s, position %s, values %+v, %d earlier request(s) on the instance]", j.shape, j.pos, v, len(cs.Prev)), cs)
 					continue
 				}
 				switch {
@@ -428,7 +473,37 @@ func c14Run(r *core.Run) {
 					l.Class(fmt.Sprintf("wrote:%dxx", world.lastStatus()/100))
 				}
 				if vi%401 == 0 {
-					l.Sample(c14Case{j.shape, j.pos, j.custom, c14Vals{S: trunc(v.S), Err: v.Err, Code: v.Code, BNil: v.BNil, PNil: v.PNil}})
+					l.Sample(c14Case{Shape: j.shape, Position: j.pos, Custom: j.custom, V: c14Vals{S: trunc(v.S), Err: v.Err, Code: v.Code, BNil: v.BNil, PNil: v.PNil}})
+				}
+			}
+			// two-request histories on a fresh instance: (one value of every outcome class, every value)
+			if j.custom != "" {
+				continue
+			}
+			reps := c14Reps(j.shape, vals, r.Thorough())
+			for _, prev := range reps {
+				for _, v := range vals {
+					if len(v.S) > 1 || len(v.B) > 1 || (v.Code != 200 && v.Code%100 > 4 && !r.Thorough()) {
+						continue
+					}
+					fresh := c14Build(j.shape, j.pos, j.custom)
+					c14Eval(fresh, j.shape, prev)
+					l.Evals++
+					l.Transitions += 2
+					l.Traces++
+					l.States++
+					l.Extra["two_request_histories"]++
+					bad, kind, defined := c14Eval(fresh, j.shape, v)
+					if !defined {
+						continue
+					}
+					l.NonTrivial++
+					if bad != "" {
+						l.Class("mismatch")
+						l.Violate(kind+"/"+j.shape+"/after-earlier-requests", bad+fmt.Sprintf(" [shape %s, position %s, values %+v after a request that returned %+v]", j.shape, j.pos, v, prev), c14Case{Shape: j.shape, Position: j.pos, Custom: j.custom, V: v, Prev: []c14Vals{prev}})
+						continue
+					}
+					l.Class("second-request-as-on-a-fresh-instance")
 				}
 			}
 		}
@@ -443,6 +518,9 @@ func c14Replay(raw json.RawMessage) (bool, string) {
 		return false, err.Error()
 	}
 	w := c14Build(c.Shape, c.Position, c.Custom)
+	for _, p := range c.Prev {
+		c14Eval(w, c.Shape, p)
+	}
 	bad, _, _ := c14Eval(w, c.Shape, c.V)
 	return bad != "", bad
 }
